@@ -106,7 +106,7 @@ func main() {
 	pa = h.Ports(prop)
 	load = h.StartLoadProbe()
 	startServers()
-	n := run.N(120, 1200)
+	n := run.N(120, 5000)
 	run.ParallelRange(0, n, 12, func(c *h.Case) {
 		switch c.Idx % 4 {
 		case 0, 1:
@@ -117,10 +117,10 @@ func main() {
 			scenarioSessionEnd(c)
 		}
 	})
-	nHand := run.N(32, 320)
+	nHand := run.N(32, 1200)
 	run.ParallelRange(1000000, nHand, 32, scenarioHandoff)
 	startPluginServer()
-	run.ParallelRange(2000000, run.N(12, 96), 12, scenarioPluginReject)
+	run.ParallelRange(2000000, run.N(12, 240), 12, scenarioPluginReject)
 	for _, s := range servers {
 		s.srv.Close()
 	}
